@@ -120,7 +120,7 @@ func (tr *Translator) lookupIdent(name string) tv {
 			}
 		}
 		// hidden loop variables (rangeindex) of an enclosing loop: the header phi of the innermost enclosing loop that has one
-		if name == "rangeindex" {
+		if name == "rangeindex" || name == "rangeindex_outer" {
 			var best *ssa.Phi
 			for _, eli := range f.inLoop[tr.block] {
 				if tr.li != nil && eli == tr.li {
@@ -131,7 +131,7 @@ func (tr *Translator) lookupIdent(name string) tv {
 					if !ok {
 						break
 					}
-					if phi.Comment == name {
+					if phi.Comment == "rangeindex" {
 						if _, ok := f.vals[phi]; ok && (best == nil || best.Block().Dominates(phi.Block())) {
 							best = phi
 						}
